@@ -64,3 +64,17 @@ Definition pair_of (o : op R) : mat4 R * mat4 R :=
 
 (* what the stored inverse matrix of an accepted step does *)
 Definition step_inverse_action (o : op R) (w : bool) (q : vec3 R) : vec3 R := apply_point ROps (snd (pair_of o)) w q.
+
+(* ---------------- matrix-level invariant without affinity; witnesses of the compose_non_affine finding ---------------- *)
+Definition InvPairs (st : cstate (F:=R)) : Prop := Forall (fun fr => inverse_pair (fst fr) (snd fr)) st.
+(* arguments for which the stored pair really is an inverse pair, affine or not *)
+Definition op_ok_inv (o : op R) : Prop :=
+  match o with
+  | OAppend f (Some r) => inverse_pair f r
+  | ORotate (RotMat m) => orthogonal3 m
+  | _ => True
+  end.
+(* inverse of proj_witness_a; a projective matrix whose first three rows use w, and its inverse *)
+Definition proj_witness_a_inv : mat4 R := M4 1 0 0 0  0 1 0 0  0 0 1 0  (-1) 0 0 1.
+Definition proj_witness_c : mat4 R := M4 1 0 0 1  0 1 0 0  0 0 1 0  1 0 0 2.
+Definition proj_witness_c_inv : mat4 R := M4 2 0 0 (-1)  0 1 0 0  0 0 1 0  (-1) 0 0 1.
